@@ -285,6 +285,7 @@ func init() {
 		ID:    "C09",
 		Level: "exploration",
 		Rule: "seeded cluster runs (7-9 real nodes) whose whole history is injected: 12-31 (thorough 30-89) payloads per run on random chains incl. new rounds, each with a family of certificate variants (valid >= threshold with random signer sets; sub-threshold; out-of-range mask bit; signature over another hash; one wrong key in the aggregate; flipped mask/signature bit; changed payload under the same certificate), each variant delivered 1-3 times to every node in shuffled order with duplication/reordering and restarts; every WriteSnapshot on every node is judged by an independent verifier; " +
+			"30% of the runs are membership-rig histories in which the key set changes (pledge, acceptance + 12 h readiness, removal): every snapshot applied outside the node-operation window is judged against the rig's own membership model, and around every change forged certificates are offered (below threshold, wrong key, flipped mask bit, complete and correct for the key vector of another instant); " +
 			"non-trivial = at least one verified write and one invalid variant delivered; distinct = canonical-log digests. Membership is static per run (genesis members; runs with more than 7 nodes stay outside the node-operation window) — histories with pledge/accept/remove are covered for the threshold arithmetic by C10/C11.",
 		Components: clusterComponents,
 		Assume:     clusterAssume,
